@@ -64,7 +64,7 @@ class C05(Spec):
     oracle_filter = {"results_equal_model", "no_nil_document", "well_formed_result"}
     rule = ("a corpus of valid responses (200 with one/two Content-Type headers, LF and CRLF line ends, a redirect chain of 3 hops) "
             "cut at EVERY byte (exhaustive, byte by byte: the peer closes after k bytes); and every stall stage: no handshake, silence "
-            "after the handshake, silence inside the status line / headers / body, reset, trickle (one byte per 40 ms), at the first "
+            "after the handshake, silence inside the status line / headers / body, reset, trickle, garbage (malformed status lines, header values and bodies, binary junk) (one byte per 40 ms), at the first "
             "and at a later hop of a redirect chain, with timeout_seconds = 1. The fetch must end in an error (or, where the bytes "
             "received already form a complete object, that exact object) within hops * 2 * timeout + 0.7 s, and the harness process "
             "must survive. non-trivial = a fault was injected (cut, stall, reset or trickle).")
@@ -93,6 +93,23 @@ class C05(Spec):
                 w.fetch(u)
                 w.meta.update({"fault": "cut", "k": k, "hops": 1})
                 cases.append(w.case())
+        # garbage: malformed status lines / headers / bodies and raw binary junk - an error item, never a crash
+        import c03
+        for i in range(60 if tier == "quick" else 3000):
+            w = netgen.World(base, 128)
+            u = w.url(i % 3, "/garbage%d" % i)
+            r = rng.random()
+            if r < 0.6:
+                respb = netgen.http_response(status=rng.choice(c03.STATUS_LINES) if rng.random() < 0.4 else "HTTP/1.1 200 OK",
+                                             headers=rng.choice(c03.CTYPES), body=rng.choice(c03.BODIES), eol=rng.choice(["\r\n", "\n"]))
+            elif r < 0.8:
+                respb = b"HTTP/1.1 200 OK\r\nContent-Type: " + bytes(rng.randrange(256) for _ in range(rng.randint(0, 12))).replace(b"\n", b"") + b"\r\n\r\n{}"
+            else:
+                respb = bytes(rng.randrange(256) for _ in range(rng.randint(0, 200)))
+            w.serve(u, respb, 0)
+            w.fetch(u)
+            w.meta.update({"fault": "garbage", "hops": 1})
+            cases.append(w.case())
         # cut inside the second hop of a redirect chain
         resp = corpus[0]
         for k in range(0, len(resp), 7):
